@@ -5,6 +5,7 @@ import (
 	"bytes"
 	"errors"
 	"fmt"
+	"math"
 	"regexp"
 	"strconv"
 	"strings"
@@ -222,7 +223,8 @@ func parseWeight(s string) (float64, error) {
 		return 0, nil
 	}
 	f, err := strconv.ParseFloat(s, 64)
-	if err != nil {
+	// a weight is a number: ParseFloat also reads "NaN" and "Inf"
+	if err != nil || math.IsNaN(f) || math.IsInf(f, 0) {
 		return 0.0, errors.New("syntax error: weight value invalid")
 	}
 	return f, nil
